@@ -4,7 +4,7 @@ set -e
 WT=/tmp/seedwt-$1
 git -C /repo worktree remove --force $WT >/dev/null 2>&1 || true
 git -C /repo worktree add --detach $WT HEAD >/dev/null 2>&1
-find $WT -name verif_contracts.go -delete
+find $WT -name "verif_*.go" -delete
 # hide the deletions from git diff / status
 (cd $WT && git ls-files -d | xargs -r git update-index --assume-unchanged)
 mkdir -p /tmp/seedout/$1
